@@ -1,8 +1,9 @@
 #!/bin/bash
-# Runs every sanity mutant in /verif/mutants against the check named by its file-name prefix
-# (cNN-...) plus any extra checks listed in mutants/<name>.checks; prints one line per (mutant, check).
+# Runs the sanity mutants in /verif/mutants (all, or those whose name matches $1) against the check
+# named by the file-name prefix (cNN-...) plus any extra checks listed in mutants/<name>.checks;
+# prints one line per (mutant, check).
 cd /verif
-for f in mutants/*.diff; do
+for f in mutants/*${1:-}*.diff; do
   n=$(basename "$f" .diff)
   ids=$(echo "${n%%-*}" | tr a-z A-Z)
   [ -f "mutants/$n.checks" ] && ids="$ids $(cat mutants/$n.checks)"
